@@ -216,6 +216,19 @@ func runC02(c *core.Ctx) {
 		if r.Chance(1, 10) {
 			p.sKey = p.fKey
 		}
+		if r.Chance(1, 6) { // first data-rate, first channel (and both): the B1 block then differs from B0 in fewer places
+			switch r.Intn(3) {
+			case 0:
+				p.txDR = 0
+			case 1:
+				p.txCh = 0
+			default:
+				p.txDR, p.txCh = 0, 0
+				if r.Bool() {
+					p.sKey = p.fKey
+				}
+			}
+		}
 		up := d.Spec.Uplink()
 		dir := "down"
 		if up {
